@@ -500,6 +500,7 @@ class Report:
         self.violations = []
         self.known = []
         self.notes = []
+        self.extra = {}
         self.replay_dir = ensure_dir(os.path.join(OUT, "replay"))
         for f in glob.glob(os.path.join(self.replay_dir, f"{prop}_*.json")):
             os.remove(f)
@@ -517,6 +518,9 @@ class Report:
         self.known.append(f"KNOWN-FINDING: property={self.prop} {what}")
 
     def finish(self, level, coverage, assumptions):
+        if self.extra:
+            coverage = dict(coverage)
+            coverage.update(self.extra)
         ev = {
             "property_id": self.prop, "tier": self.tier, "seed": self.seed, "level": level,
             "coverage": coverage, "assumptions": assumptions,
@@ -592,6 +596,25 @@ def correspond(binpath, items, header, check_fn, tag, args=(), per_file=150):
             return outl, [], errors
     bad, cerrs = coq_check_cases(tag, header, check_fn, terms, per_file=per_file)
     return outl, bad, errors + cerrs
+
+
+def profile_phase(rep, binname, items, outl, profiles=("release",), skip=None, args=()):
+    """For properties whose expected observations do not depend on the build profile: run the same cases
+    in the other cargo profiles and report every case whose observation differs from the dev-profile one
+    (which the model has been compared with).  `skip(item, dev_obs_line)` excludes cases whose behaviour is
+    legitimately profile dependent (e.g. an overflow panic that wraps in release).  Returns a dict for evidence."""
+    idx = [i for i, it in enumerate(items) if not (skip and skip(it, outl[i]))]
+    sub = [items[i] for i in idx]
+    base = [outl[i] for i in idx]
+    diffs, errs = profile_diff(binname, sub, base, profiles=profiles, args=args)
+    for name, msg in errs:
+        rep.violation("profile_" + name, {"kind": "harness could not be built/run in another build profile", "log": msg}, no_input=True)
+    for j, prof, line in diffs[:3]:
+        rep.violation(f"profile_{prof}_case{idx[j]}", {
+            "kind": f"the crate behaves differently in the {prof} build profile than in the dev profile on a case where the proved model has no profile dependence",
+            "harness_line": sub[j]["line"], "dev_observations": base[j], f"{prof}_observations": line,
+            "replay": f"echo '<harness_line>' | harness/target/{prof}/{binname}"})
+    return {"profiles_diffed_against_dev": list(profiles), "cases": len(sub), "differences": len(diffs)}
 
 
 def shrink_ops(item, rebuild, fails, max_steps=60):
